@@ -29,6 +29,9 @@ def accuracy(Y1, Y2):
     z1, p1 = teneva.norm(sub(Y1, Y2), use_stab=True)
     z2, p2 = teneva.norm(Y2, use_stab=True)
 
+    if z1 == 0. and abs(z2) >= 1.E-100:
+        return 0.
+
     if p1 - p2 > 500:
         return 1.E+299
     if p1 - p2 < -500:
